@@ -3,7 +3,13 @@ import PyYetiVerif.Props.C12
 #print axioms PyYetiVerif.C12.fixed_branch_width
 #print axioms PyYetiVerif.C12.fixed_branch_width_rat
 #print axioms PyYetiVerif.C12.fixed_branch_width_tables
-#print axioms PyYetiVerif.C12.fixed_branch_accuracy_partial
+#print axioms PyYetiVerif.C12.sscanf_parses_field
+#print axioms PyYetiVerif.C12.sscanf_parses_recognised
+#print axioms PyYetiVerif.C12.fixed_branch_accuracy
+#print axioms PyYetiVerif.C12.fixed_precision_maximal
+#print axioms PyYetiVerif.C12.sci_consts_ok
+#print axioms PyYetiVerif.C12.sci_width_accuracy
+#print axioms PyYetiVerif.C12.sci_width
 #print axioms PyYetiVerif.C12.carry_guard_sound
 #print axioms PyYetiVerif.C12.int_field_roundtrip
 #print axioms PyYetiVerif.C12.blank_field_roundtrip
